@@ -1,3 +1,301 @@
-/- Property theorems for C16 (stub: not built yet). -/
+/-
+C16  Fitted panel estimators treat instances independently and ignore the container.
+
+"Once fitted, a panel transformer, classifier or regressor maps each instance on its own:
+reordering the instances of the input reorders the rows of the output identically, the output for a
+single instance equals the corresponding row of the batch output, and the number and order of
+output rows equal those of the input.  Passing the same data as a nested DataFrame or as a 3D array,
+at fit or at apply time, gives the same result."
+
+The theorems are about the generic shapes of SkVerif/Model/C16RowWise.lean and are universally
+quantified over the per-instance function `f`, the members, the aggregate, the selection `idx`
+(permutations, sub-selections, single instances, repeats) and the panel.  PARTIAL (DESIGN §5 C16):
+that a *particular* fitted member (an sklearn tree, a BOSS nearest-neighbour histogram, PCA's matrix
+product) is of the form `map f` is not proved here; it is observed by the correspondence
+(harness/corr/C16.py) on the real code and classified statically from the source.
+Only theorems + non-vacuity examples here; helper lemmas live in SkVerif/Lemmas/C16*.lean.
+-/
+import SkVerif.Lemmas.C16Container
 namespace SkVerif.C16
+open SkVerif
+
+variable {α β γ : Type}
+
+/-! ## The row loops of the code are `map` -/
+
+/-- `out = []; for x in X: out.append(f(x))` is `[f(x) for x in X]` -/
+theorem loopAppend_eq_map (f : α → β) (X : List α) : loopAppend f X = X.map f := Lem.loopAppend_eq f X
+
+/-- `for i in range(n): out[i] = f(X[i])` is `[f(x) for x in X]` -/
+theorem loopIndex_eq_map (f : α → β) (X : List α) : loopIndex f X = X.map f := Lem.loopIndex_eq f X
+
+example : loopAppend (· + 1) [3, 1, 2] = [4, 2, 3] ∧ loopIndex (· + 1) [3, 1, 2] = [4, 2, 3] := by decide
+
+/-! ## Equivariance under selection of instances -/
+
+/-- Reordering (or sub-selecting, or repeating) the instances reorders the output rows identically:
+for every per-instance function, every index list and every panel. -/
+theorem perm_equivariant (f : α → β) (idx : List Nat) (X : List α) :
+    (select idx X).map f = select idx (X.map f) := (Lem.select_map f idx X).symm
+
+/-- selecting by a permutation of the positions really is a reordering of the panel -/
+theorem select_perm_is_reordering (idx : List Nat) (X : List α) (h : IsPermOf idx X.length) :
+    (select idx X).Perm X := by
+  have := Lem.select_perm_congr h X
+  rwa [Lem.select_range] at this
+
+example : select [2, 0, 1] ["a", "b", "c"] = ["c", "a", "b"] ∧ IsPermOf [2, 0, 1] 3 := by
+  refine ⟨by decide, ?_⟩
+  unfold IsPermOf; decide
+
+/-- a sub-selection with valid positions has one output row per selected position, in that order -/
+theorem subselect_rows (f : α → β) (idx : List Nat) (X : List α) (h : ∀ i ∈ idx, i < X.length) (k : Nat) :
+    ((select idx X).map f).length = idx.length ∧
+    ((select idx X).map f)[k]? = (idx[k]?).bind (fun i => (X[i]?).map f) := by
+  refine ⟨by rw [List.length_map]; exact Lem.select_length_of_valid idx X h, ?_⟩
+  rw [List.getElem?_map, Lem.select_getElem? idx X h]
+  cases idx[k]? <;> rfl
+
+example : ((select [3, 1] [10, 20, 30, 40]).map (· * 2)) = [80, 40] := by decide
+
+/-- The output for a single instance is the corresponding row of the batch output. -/
+theorem single_eq_row_of_batch (f : α → β) (X : List α) (i : Nat) (h : i < X.length) :
+    [X[i]].map f = [(X.map f)[i]'(by rw [List.length_map]; exact h)] := by
+  simp
+
+/-- the same, through `select [i]` -/
+theorem single_select_eq_row (f : α → β) (X : List α) (i : Nat) (h : i < X.length) :
+    (select [i] X).map f = [f X[i]] ∧ select [i] (X.map f) = [f X[i]] := by
+  rw [← perm_equivariant, Lem.select_single X i h]
+  exact ⟨rfl, rfl⟩
+
+example : (select [1] [5, 6, 7]).map (· + 10) = [16] := by decide
+
+/-- The number and order of output rows equal those of the input. -/
+theorem row_count_and_order (f : α → β) (X : List α) :
+    (X.map f).length = X.length ∧ ∀ i (h : i < X.length), (X.map f)[i]'(by rw [List.length_map]; exact h) = f X[i] := by
+  refine ⟨List.length_map .., ?_⟩
+  intro i h; simp
+
+/-! ## Row loops that may raise, and batch guards -/
+
+/-- when the batch goes through, every selection goes through and its output is the selection of the
+batch output -/
+theorem raising_rows_select {ε : Type} (f : α → Except ε β) (X : List α) (Y : List β)
+    (h : mapRowsE f X = .ok Y) (idx : List Nat) : mapRowsE f (select idx X) = .ok (select idx Y) :=
+  Lem.mapM_select f X Y h idx
+
+/-- when the batch is rejected, one of its instances is rejected on its own with the same error -/
+theorem raising_rows_culprit {ε : Type} (f : α → Except ε β) (X : List α) (e : ε)
+    (h : mapRowsE f X = .error e) : ∃ x ∈ X, f x = .error e := Lem.mapM_error_culprit f X e h
+
+example : mapRowsE (fun n : Nat => if n = 0 then Except.error Err.value else .ok (10 / n)) [5, 2] = .ok [2, 5] := rfl
+
+/-- PaddingTransformer's guard compares the longest series *of the batch* with the fitted length;
+it is nevertheless a per-instance condition, so an accepted batch stays accepted under selection
+and the outputs correspond -/
+theorem guardMax_select (len : α → Nat) (bound : Nat) (f : α → β) (X : List α) (Y : List β)
+    (h : guardMaxThenMap len bound f X = .ok Y) (idx : List Nat) :
+    guardMaxThenMap len bound f (select idx X) = .ok (select idx Y) := by
+  obtain ⟨h1, rfl⟩ := (Lem.guardMax_ok_iff len bound f X Y).mp h
+  exact (Lem.guardMax_ok_iff len bound f _ _).mpr
+    ⟨fun x hx => h1 x (Lem.select_mem idx X x hx), Lem.select_map f idx X⟩
+
+/-- TruncationTransformer's guard (shortest series of the batch against the fitted bound); the
+selection must be non-empty, as `check_X` demands anyway -/
+theorem guardMin_select (len : α → Nat) (bound : Nat) (f : α → β) (X : List α) (Y : List β)
+    (hX : X ≠ []) (h : guardMinThenMap len bound f X = .ok Y) (idx : List Nat) (hne : select idx X ≠ []) :
+    guardMinThenMap len bound f (select idx X) = .ok (select idx Y) := by
+  obtain ⟨h1, rfl⟩ := (Lem.guardMin_ok_iff len bound f X Y hX).mp h
+  exact (Lem.guardMin_ok_iff len bound f _ _ hne).mpr
+    ⟨fun x hx => h1 x (Lem.select_mem idx X x hx), Lem.select_map f idx X⟩
+
+example : guardMaxThenMap List.length 3 (fun s : List Nat => s ++ List.replicate (3 - s.length) 0) [[1], [1, 2, 3]]
+    = .ok [[1, 0, 0], [1, 2, 3]] := rfl
+example : guardMinThenMap List.length 2 (fun s : List Nat => s.take 2) [[1, 5, 6], [1, 2]] = .ok [[1, 5], [1, 2]] := rfl
+
+/-! ## Row-wise maps: characterisation and closure -/
+
+/-- A batch function is row-wise exactly when it keeps the row count and the row it returns for
+instance `i` of any batch is what it returns for that instance alone: the two metamorphic
+observables of the correspondence are *equivalent* to instance independence. -/
+theorem rowwise_iff_single_eq_row (F : List α → List β) :
+    IsRowWise F ↔ (∀ X, (F X).length = X.length) ∧
+      (∀ X i, i < X.length → (F X)[i]? = (X[i]?).bind (fun x => (F [x])[0]?)) := by
+  constructor
+  · rintro ⟨f, hf⟩
+    refine ⟨fun X => by rw [hf, List.length_map], fun X i hi => ?_⟩
+    rw [hf, List.getElem?_map, List.getElem?_eq_getElem hi]
+    simp [hf]
+  · rintro ⟨h1, h2⟩
+    exact Lem.isRowWise_of_single F h1 h2
+
+/-- a row-wise map commutes with every selection of instances -/
+theorem rowwise_select_equivariant (F : List α → List β) (h : IsRowWise F) (idx : List Nat) (X : List α) :
+    F (select idx X) = select idx (F X) := by
+  obtain ⟨f, hf⟩ := h
+  rw [hf, hf, perm_equivariant]
+
+/-- Ensembles as the code builds them (every member maps the whole batch, the stacked outputs are
+combined along the member axis) compute, for every instance, the aggregate of the members' outputs
+for that instance. -/
+theorem ensemble_eq_rowwise_aggregate (fs : List (α → β)) (agg : List β → γ) (X : List α) :
+    ensembleBatch (fs.map (fun f => List.map f)) agg X = X.map (fun x => agg (fs.map (fun f => f x))) :=
+  Lem.ensembleBatch_eq fs agg X
+
+/-- Aggregating row-wise members is row-wise, for every aggregate and every list of members. -/
+theorem aggregate_rowwise_of_members_rowwise (members : List (List α → List β)) (agg : List β → γ)
+    (h : ∀ m ∈ members, IsRowWise m) : IsRowWise (ensembleBatch members agg) := by
+  obtain ⟨fs, rfl⟩ := Lem.members_rowwise members h
+  exact ⟨fun x => agg (fs.map (fun f => f x)), fun X => Lem.ensembleBatch_eq fs agg X⟩
+
+example : ensembleBatch [List.map (· + 1), List.map (· * 2)] List.sum [1, 2, 3] = [4, 7, 10] := by decide
+
+/-- the accumulation loop over members (`sums[i, cls(preds[i])] += w[n]`, BOSS / cBOSS / TDE /
+ROCKET) computes, per instance, the fold of that instance's member outputs -/
+theorem accumulate_eq_rowwise_fold (fs : List (α → β)) (upd : Nat → γ → β → γ) (init : γ) (X : List α) :
+    accumBatch (fs.map (fun f => List.map f)) upd init X = X.map (accumOne fs upd init) :=
+  Lem.accumBatch_eq fs upd init X
+
+/-- … hence it is row-wise whenever the members are -/
+theorem accumulate_rowwise_of_members_rowwise (members : List (List α → List β)) (upd : Nat → γ → β → γ)
+    (init : γ) (h : ∀ m ∈ members, IsRowWise m) : IsRowWise (accumBatch members upd init) := by
+  obtain ⟨fs, rfl⟩ := Lem.members_rowwise members h
+  exact ⟨accumOne fs upd init, fun X => Lem.accumBatch_eq fs upd init X⟩
+
+example : accumBatch [List.map (· + 1), List.map (· * 2)] (fun n s p => s + (n + 1) * p) 0 [1, 2] = [6, 11] := by decide
+
+/-- composition of row-wise maps is row-wise -/
+theorem compose_rowwise {δ : Type} (F : List α → List β) (G : List β → List δ) (hF : IsRowWise F) (hG : IsRowWise G) :
+    IsRowWise (fun X => G (F X)) := Lem.isRowWise_comp F G hF hG
+
+/-- a pipeline of row-wise steps followed by a row-wise final estimator is row-wise -/
+theorem pipeline_rowwise (steps : List (List α → List α)) (final : List α → List β)
+    (hs : ∀ t ∈ steps, IsRowWise t) (hf : IsRowWise final) : IsRowWise (pipeline steps final) :=
+  Lem.isRowWise_comp _ final (Lem.isRowWise_foldl steps hs) hf
+
+example : pipeline [List.map (· + 1), List.map (· * 2)] (List.map (fun n : Nat => n % 3)) [1, 2, 3] = [1, 0, 2] := by decide
+
+/-! ## Container invariance -/
+
+/-- `check_X` only validates and re-tags: what it returns holds the caller's instances -/
+theorem checkX_keeps_instances (cfg : CheckCfg) (X X' : XIn) (h : checkX cfg X = .ok X') :
+    X'.instances = X.instances := Lem.checkX_instances cfg X X' h
+
+/-- the same data as a nested DataFrame or as a 3-D array is accepted or rejected alike, and is
+turned into the same instances, whatever coercion the estimator asks for -/
+theorem checkX_container_irrelevant (cfg : CheckCfg) (rows : List Inst) (hr : rectangular rows = true) :
+    (checkX cfg (.nested rows)).map XIn.instances = (checkX cfg (.arr3 rows)).map XIn.instances :=
+  Lem.checkX_nested_arr3 cfg rows hr
+
+/-- Container invariance at apply time: nested DataFrame and 3-D array of the same data give the
+same output (or the same rejection). -/
+theorem container_invariant (cfg : CheckCfg) (f : Inst → β) (rows : List Inst) (hr : rectangular rows = true) :
+    applyFitted cfg f (.nested rows) = applyFitted cfg f (.arr3 rows) := by
+  unfold applyFitted
+  have h := checkX_container_irrelevant cfg rows hr
+  cases h1 : checkX cfg (.nested rows) with
+  | error e1 =>
+    cases h2 : checkX cfg (.arr3 rows) with
+    | error e2 => rw [h1, h2] at h; simp only [Except.map, Except.error.injEq] at h; rw [h]
+    | ok b => rw [h1, h2] at h; simp [Except.map] at h
+  | ok a =>
+    cases h2 : checkX cfg (.arr3 rows) with
+    | error e2 => rw [h1, h2] at h; simp [Except.map] at h
+    | ok b => rw [h1, h2] at h; simp only [Except.map, Except.ok.injEq] at h ⊢; rw [h]
+
+/-- Container invariance at fit time: whatever is learned is learned from the same instances. -/
+theorem container_invariant_fit {υ : Type} (cfgFit cfgApply : CheckCfg) (learn : List Inst → υ → (Inst → β))
+    (rows : List Inst) (y : υ) (hr : rectangular rows = true) (X : XIn) :
+    fitThenApply cfgFit cfgApply learn (.nested rows) y X = fitThenApply cfgFit cfgApply learn (.arr3 rows) y X := by
+  unfold fitThenApply
+  have h := checkX_container_irrelevant cfgFit rows hr
+  cases h1 : checkX cfgFit (.nested rows) with
+  | error e1 =>
+    cases h2 : checkX cfgFit (.arr3 rows) with
+    | error e2 => rw [h1, h2] at h; simp only [Except.map, Except.error.injEq] at h; rw [h]
+    | ok b => rw [h1, h2] at h; simp [Except.map] at h
+  | ok a =>
+    cases h2 : checkX cfgFit (.arr3 rows) with
+    | error e2 => rw [h1, h2] at h; simp [Except.map] at h
+    | ok b =>
+      rw [h1, h2] at h; simp only [Except.map, Except.ok.injEq] at h
+      show applyFitted cfgApply (learn a.instances y) X = applyFitted cfgApply (learn b.instances y) X
+      rw [h]
+
+example : rectangular [[[1, 2], [3, 4]], [[5, 6], [7, 8]]] = true ∧
+    applyFitted {toNumpy := true} (fun i => i.length) (.nested [[[1, 2], [3, 4]], [[5, 6], [7, 8]]]) = .ok [2, 2] :=
+  ⟨by decide, rfl⟩
+
+/-- whenever a fitted estimator accepts both the batch and a selection of its instances, the output
+for the selection is the selection of the batch output (both containers, every coercion) -/
+theorem applyFitted_select (cfg : CheckCfg) (f : Inst → β) (X : XIn) (idx : List Nat) (Y Y' : List β)
+    (h : applyFitted cfg f X = .ok Y) (h' : applyFitted cfg f (X.select idx) = .ok Y') : Y' = select idx Y := by
+  unfold applyFitted at h h'
+  cases h1 : checkX cfg X with
+  | error e => rw [h1] at h; cases h
+  | ok X1 =>
+    cases h2 : checkX cfg (X.select idx) with
+    | error e => rw [h2] at h'; cases h'
+    | ok X2 =>
+      rw [h1] at h; rw [h2] at h'
+      simp only [Except.map] at h h'
+      cases h; cases h'
+      rw [checkX_keeps_instances cfg _ _ h1, checkX_keeps_instances cfg _ _ h2, Lem.select_instances,
+        perm_equivariant]
+
+/-- a non-empty selection (with at least `minInstances` rows) of an accepted batch is accepted -/
+theorem checkX_accepts_subbatch (cfg : CheckCfg) (rows : List Inst) (idx : List Nat) (X' : XIn) (asArr : Bool)
+    (h : checkX cfg (if asArr then .arr3 rows else .nested rows) = .ok X')
+    (hu : ∀ r ∈ rows, r.length = nColumns rows)
+    (hn : cfg.minInstances ≤ (select idx rows).length) (hne : select idx rows ≠ []) :
+    ∃ X'', checkX cfg (if asArr then .arr3 (select idx rows) else .nested (select idx rows)) = .ok X'' :=
+  Lem.checkX_select_ok cfg rows idx X' asArr h hu hn hne
+
+/-- the empty selection is rejected (`enforce_min_instances=1`) -/
+theorem checkX_rejects_empty (cfg : CheckCfg) (hm : 1 ≤ cfg.minInstances) :
+    checkX cfg (.nested []) = .error .value ∧ checkX cfg (.arr3 []) = .error .value := by
+  unfold checkX
+  have h3 : cfg.minInstances ≠ 0 := by omega
+  have h2 : ¬ (nColumns ([] : List Inst) > 1) := by simp [nColumns]
+  cases (cfg.toPandas && cfg.toNumpy) <;> by_cases h1 : nColumns ([] : List Inst) < cfg.minColumns <;>
+    simp [h1, h2, h3]
+
+/-! ## Static shapes -/
+
+/-- every shape the static classifier calls row-wise denotes a row-wise map, whatever the leaves
+stand for -/
+theorem classified_rowwise_sound {V : Type} (env : Env V) (s : Shape) (h : s.rowWise = true) :
+    IsRowWise (s.denote env) := Lem.shape_sound env s h
+
+example : (Shape.comp (.guarded (.rows 0)) (.agg 0 (.rows 1) (.rows 2))).rowWise = true := by decide
+
+def witnessEnv : Env Nat :=
+  { f := fun _ x => x, g := fun _ a b => a + b, st := fun _ X x => x + X.sum, key := fun _ x => x, h := fun _ X => X.reverse }
+
+/-- a statistic over the whole batch inside `transform` is not row-wise: a single instance does not
+give the batch row -/
+theorem stat_not_rowwise_witness :
+    (Shape.stat 0).denote witnessEnv (select [1] [1, 2]) ≠ select [1] ((Shape.stat 0).denote witnessEnv [1, 2]) := by
+  decide
+
+/-- sorting the instances internally is not permutation-equivariant -/
+theorem sortInst_not_rowwise_witness :
+    (Shape.sortInst 0).denote witnessEnv (select [1, 0] [1, 2]) ≠ select [1, 0] ((Shape.sortInst 0).denote witnessEnv [1, 2]) := by
+  decide
+
+/-- an output rebuilt from a dict keyed by instance values loses repeated instances -/
+theorem dictByValue_not_rowwise_witness :
+    ((Shape.dictByValue 0).denote witnessEnv [7, 7]).length ≠ [7, 7].length := by
+  decide
+
+/-- … so none of them is a row-wise map -/
+theorem flagged_shapes_not_rowwise :
+    ¬ IsRowWise ((Shape.stat 0).denote witnessEnv) ∧ ¬ IsRowWise ((Shape.sortInst 0).denote witnessEnv) ∧
+    ¬ IsRowWise ((Shape.dictByValue 0).denote witnessEnv) := by
+  refine ⟨fun h => stat_not_rowwise_witness (rowwise_select_equivariant _ h _ _),
+          fun h => sortInst_not_rowwise_witness (rowwise_select_equivariant _ h _ _), ?_⟩
+  rintro ⟨f, hf⟩
+  exact dictByValue_not_rowwise_witness (by rw [hf]; simp)
+
 end SkVerif.C16
